@@ -1049,7 +1049,65 @@ def builtin_subclass(name, others):
 # ---------------------------------------------------------------------------
 # G-SETITER over the whole package
 
-LISTS_OF_SETS = {"_translations", "_scopes", "scopes"}
+def lists_of_sets(repo):
+    """class -> the attributes that hold a list whose elements are sets,
+    read off the source: every element ever put into ``self.<attr>`` (list
+    display assigned to it, ``self.<attr>.append(e)``) is a set-typed
+    expression (locals resolved, ``set(self.<attr>[-1])`` included)"""
+    elems = {}
+    for q, f in sorted(repo.funcs.items()):
+        if f.cls is None:
+            continue
+        for n in ast.walk(f.node):
+            if isinstance(n, ast.Assign):
+                for t in n.targets:
+                    if isinstance(t, ast.Attribute) and \
+                            src(t.value) == "self":
+                        if isinstance(n.value, (ast.List, ast.Tuple)):
+                            for e in n.value.elts:
+                                elems.setdefault((f.cls.qualname, t.attr),
+                                                 []).append((f, e))
+                        elif (f.cls.qualname, t.attr) in elems or \
+                                not isinstance(n.value, ast.Constant):
+                            # bound to something that is no list display
+                            elems.setdefault((f.cls.qualname, t.attr),
+                                             []).append((f, None))
+            elif isinstance(n, ast.Call) and isinstance(
+                    n.func, ast.Attribute) and n.func.attr in (
+                        "append", "insert") and isinstance(
+                            n.func.value, ast.Attribute) and \
+                    src(n.func.value.value) == "self" and n.args:
+                elems.setdefault((f.cls.qualname, n.func.value.attr),
+                                 []).append((f, n.args[-1]))
+    out = {}
+    for (cq, attr), es in elems.items():
+        good = bool([e for f, e in es if e is not None])
+        grounded = False
+        for f, e in es:
+            if e is None:
+                # a non-display binding: fine if it is an empty start
+                continue
+
+            def typed(assume):
+                local = {}
+                for _ in range(2):
+                    for n in ast.walk(f.node):
+                        if isinstance(n, ast.Assign) and _is_set_expr(
+                                n.value, local, set(), assume):
+                            for t in n.targets:
+                                if isinstance(t, ast.Name):
+                                    local[t.id] = n.value
+                return _is_set_expr(e, local, set(), assume)
+            if not typed({attr}):
+                good = False
+            # (one element at least is a set by itself, not only under the
+            # assumption that the list holds sets)
+            grounded = grounded or typed(frozenset())
+        if good and grounded:
+            out.setdefault(cq, set()).add(attr)
+    return out
+
+
 ORDERED_CONSUMERS = ("list", "tuple", "enumerate", "zip", "map", "iter",
                      "next", "reversed")
 
@@ -1071,7 +1129,7 @@ def _set_attrs(repo):
     return out
 
 
-def _is_set_expr(e, local, attrs):
+def _is_set_expr(e, local, attrs, los=frozenset()):
     if isinstance(e, (ast.Set, ast.SetComp)):
         return True
     if isinstance(e, ast.Call) and isinstance(e.func, ast.Name) and \
@@ -1084,15 +1142,15 @@ def _is_set_expr(e, local, attrs):
         return True
     if isinstance(e, ast.BinOp) and isinstance(
             e.op, (ast.BitOr, ast.BitAnd, ast.Sub, ast.BitXor)):
-        return _is_set_expr(e.left, local, attrs) or \
-            _is_set_expr(e.right, local, attrs)
+        return _is_set_expr(e.left, local, attrs, los) or \
+            _is_set_expr(e.right, local, attrs, los)
     if isinstance(e, ast.Call) and isinstance(e.func, ast.Attribute) and \
             e.func.attr in ("union", "intersection", "difference",
                             "symmetric_difference", "copy") and \
-            _is_set_expr(e.func.value, local, attrs):
+            _is_set_expr(e.func.value, local, attrs, los):
         return True
     if isinstance(e, ast.Subscript) and isinstance(e.value, ast.Attribute) \
-            and e.value.attr in LISTS_OF_SETS:
+            and e.value.attr in los and src(e.value.value) == "self":
         return True
     return False
 
@@ -1104,13 +1162,16 @@ def set_iteration_sites(repo):
     max()/sum()/membership are order-free and not reported.
     -> [(Func, lineno, kind, resolved-iter-text)]"""
     attrs = _set_attrs(repo)
+    los_by_class = lists_of_sets(repo)
     out = []
     for q, f in sorted(repo.funcs.items()):
         local = {}
+        los = los_by_class.get(f.cls.qualname, frozenset()) \
+            if f.cls is not None else frozenset()
         for _ in range(3):
             for n in ast.walk(f.node):
                 if isinstance(n, ast.Assign) and \
-                        _is_set_expr(n.value, local, attrs):
+                        _is_set_expr(n.value, local, attrs, los):
                     for t in n.targets:
                         if isinstance(t, ast.Name):
                             local[t.id] = n.value
@@ -1142,7 +1203,7 @@ def set_iteration_sites(repo):
             elif isinstance(n, ast.Starred):
                 its.append((n.value, "unpack"))
             for e, kind in its:
-                if _is_set_expr(e, local, attrs):
+                if _is_set_expr(e, local, attrs, los):
                     r = e
                     seen = 0
                     while isinstance(r, ast.Name) and r.id in local and \
